@@ -4,10 +4,11 @@ CONSTANTS
   Ghost = "zz"
   Vers = {1, 2}
   Times = {1, 2}
-  Nows = {0, 1, 2}
+  Nows = {1, 2}
   Maxes = {0, 1, 2}
-  Rejects = {{}, {"a"}, {"b", "c"}}
-  RemoveSets = {{}, {"a"}, {"b", "zz"}, {"a", "c"}, {"a", "b", "c"}}
+  NegMax = FALSE
+  Rejects = {{}, {"a"}}
+  RemoveSets = {{"a"}, {"b", "zz"}, {"a", "b", "c"}}
 INVARIANTS TypeOK GetReturnsLive QueueMatchesMap TakenAreGone
 PROPERTIES TakeContract OnlyNamedLeave SetExact
 ACTION_CONSTRAINT Dump
